@@ -63,6 +63,9 @@ def check(run, P):
              "one under the numpy facts", minimum=5)
     run.rule("C09.fix", "inference loop: change latch, progress and fixed point "
              "(shared with C14.latch / C14.progress / C14.fixpoint)", minimum=6)
+    run.rule("C09.operands", "the kind of an arithmetic node is the join of the kinds "
+             "of all its operands", minimum=4)
+    _operands(run, P)
     _total(run, P)
     _arity_tables(run, P)
     _unify_real(run, P)
@@ -110,6 +113,90 @@ def _from_result_kinds(name, f: Func):
                 and (dotted(s_.value.func) or "").endswith(".get_result_kinds"):
             return True
     return False
+
+
+ARITH = {"map_sum": "children", "map_product": "children",
+         "map_quotient": None, "map_power": None}
+
+
+def _operands(run, P):
+    C = P.cls(f"{DATA}.KindInferenceMapper")
+    CM = P.cls("pymbolic.mapper.CombineMapper")
+    from .c18 import _rec_children
+    for name in sorted(ARITH):
+        f = P.method(C, name)
+        lib = CM.methods.get(name)
+        if f is None or lib is None:
+            raise AnalysisError(f"KindInferenceMapper.{name} / CombineMapper.{name} not found")
+        need = _rec_children(lib)
+        got = _joined_children(P, C, f)
+        missing = need - got
+        run.ob("C09.operands", f, f.node, not missing,
+               construct=f"{name}: kinds of {sorted(got)} reach the result; operands are {sorted(need)}",
+               why=f"the kind of operand(s) {sorted(missing)} does not reach the result: "
+                   f"real/complex, scalar/array or integer/real widening by that "
+                   f"operand is lost and the variable's value does not have its kind")
+
+
+def _joined_children(P, C, f: Func, depth=0):
+    """expr.<attr> whose kind flows into the returned kind of handler f."""
+    e = f.params[1] if len(f.params) > 1 else "expr"
+    out = set()
+    rets = [r for r in func_body_stmts(f.node) if isinstance(r, ast.Return) and r.value is not None]
+    # names that accumulate kinds through unify(name, self.rec(x))
+    acc = {}
+    for lp in ast.walk(f.node):
+        if isinstance(lp, ast.For) and isinstance(lp.target, ast.Name):
+            it = lp.iter
+            src_attr = None
+            if isinstance(it, ast.Attribute) and dotted(it.value) == e:
+                src_attr = it.attr
+            elif isinstance(it, ast.Name) and it.id in f.params:
+                src_attr = "@" + it.id
+            if src_attr is None:
+                continue
+            v = lp.target.id
+            rec_names = {v}
+            for s_ in ast.walk(lp):
+                if isinstance(s_, ast.Assign) and isinstance(s_.value, ast.Call) \
+                        and dotted(s_.value.func) == "self.rec" and s_.value.args \
+                        and dotted(s_.value.args[0]) == v:
+                    rec_names |= {t.id for t in s_.targets if isinstance(t, ast.Name)}
+            for s_ in ast.walk(lp):
+                if isinstance(s_, ast.Assign) and isinstance(s_.value, ast.Call) \
+                        and dotted(s_.value.func) == "unify" and len(s_.value.args) == 2:
+                    a0, a1 = s_.value.args
+                    tgt = s_.targets[0].id if isinstance(s_.targets[0], ast.Name) else None
+                    uses = any((isinstance(x, ast.Call) and dotted(x.func) == "self.rec"
+                                and x.args and dotted(x.args[0]) == v)
+                               or (isinstance(x, ast.Name) and x.id in rec_names and x.id != v)
+                               for a_ in (a0, a1) for x in ast.walk(a_))
+                    if tgt and dotted(a0) == tgt and uses:
+                        acc[tgt] = src_attr
+    for r in rets:
+        v = r.value
+        if isinstance(v, ast.Name) and v.id in acc:
+            out.add(acc[v.id])
+        for x in ast.walk(v):
+            if isinstance(x, ast.Call) and dotted(x.func) == "unify":
+                for a_ in x.args:
+                    if isinstance(a_, ast.Call) and dotted(a_.func) == "self.rec" and a_.args \
+                            and isinstance(a_.args[0], ast.Attribute) and dotted(a_.args[0].value) == e:
+                        out.add(a_.args[0].attr)
+            if isinstance(x, ast.Call) and (dotted(x.func) or "").startswith("self.map_") and depth < 2:
+                helper = P.method(C, x.func.attr)
+                if helper is not None and x.args:
+                    inner = _joined_children(P, C, helper, depth + 1)
+                    a0 = x.args[0]
+                    hp = helper.params[1] if len(helper.params) > 1 else None
+                    if hp and ("@" + hp) in inner:
+                        if isinstance(a0, ast.Attribute) and dotted(a0.value) == e:
+                            out.add(a0.attr)
+                        elif isinstance(a0, ast.Tuple):
+                            for el in a0.elts:
+                                if isinstance(el, ast.Attribute) and dotted(el.value) == e:
+                                    out.add(el.attr)
+    return out
 
 
 def _kind_expr_ok(e, f: Func):
@@ -270,6 +357,12 @@ def _unify_real(run, P):
                    "with a complex operand must give a complex kind")
 
 
+TUPLE_FACTS = {
+    "la.svd": ("same", "real", "same"), "np.linalg.svd": ("same", "real", "same"),
+}
+SAME_METHODS = {"reshape", "copy", "astype", "transpose", "flatten", "ravel", "dot", "conj"}
+
+
 def _real(run, P):
     mb = P.module("dagrt.builtins_python")
     table = mb.assigns.get("builtins")
@@ -281,32 +374,65 @@ def _real(run, P):
         if not ident or ident not in py or c.name.startswith("_"):
             continue
         grk = P.method(c, "get_result_kinds")
-        rets = [s for s in func_body_stmts(grk.node) if isinstance(s, ast.Return)]
-        declared = set()
-        for r in rets:
-            if isinstance(r.value, ast.Tuple) and len(r.value.elts) == 1:
-                declared.add(ast.unparse(r.value.elts[0]))
-        want = None
-        if declared == {"Scalar(is_real_valued=True)"}:
-            want = "real"
-        elif declared == {"Boolean()"}:
-            want = "flag"
-        if want is None:
+        rets = [s_ for s_ in func_body_stmts(grk.node) if isinstance(s_, ast.Return)
+                and isinstance(s_.value, ast.Tuple)]
+        if not rets:
             continue
+        n_pos = len(rets[0].value.elts)
         fn = mb.functions[py[ident]]
-        prets = [s for s in func_body_stmts(fn.node) if isinstance(s, ast.Return)]
-        for r in prets:
-            got = _realness(r.value, fn)
-            if got == "unknown":
-                raise AnalysisError(
-                    f"{fn.fq}: result kind of {norm(r.value)} not derivable from the "
-                    f"numpy facts table (unrecognised idiom)")
-            ok = got == want or (want == "real" and got == "flag" and False)
-            run.ob("C09.real", fn, r, ok,
-                   construct=f"{ident}: declared {sorted(declared)[0]}; {norm(r)} is '{got}'",
-                   why="the declared kind says real scalar / flag for every argument, "
-                       "but this expression is complex (or an array) for a complex "
-                       "(array) argument")
+        env = _realness_env(fn)
+        prets = [s_ for s_ in func_body_stmts(fn.node) if isinstance(s_, ast.Return)
+                 and s_.value is not None]
+        for i in range(n_pos):
+            declared = {ast.unparse(r.value.elts[i]) for r in rets if len(r.value.elts) == n_pos}
+            want = None
+            if declared and all(d in ("Scalar(is_real_valued=True)", "Array(is_real_valued=True)",
+                                      "Scalar(True)", "Array(True)") for d in declared):
+                want = "real"
+            elif declared == {"Boolean()"}:
+                want = "flag"
+            if want is None:
+                continue
+            for r in prets:
+                v = r.value
+                if n_pos > 1:
+                    if not (isinstance(v, ast.Tuple) and len(v.elts) == n_pos):
+                        continue
+                    v = v.elts[i]
+                got = _realness(v, fn, env)
+                if got == "unknown":
+                    raise AnalysisError(
+                        f"{fn.fq}: result kind of {norm(v)} not derivable from the "
+                        f"numpy facts table (unrecognised idiom)")
+                ok = got == want
+                run.ob("C09.real", fn, r, ok,
+                       construct=f"{ident} result {i}: declared {sorted(declared)[0]} for every "
+                                 f"argument; {norm(v)} is '{got}'",
+                       why="the declared kind says real / flag whatever the argument, but "
+                           "this expression is complex (or an array of flags) for a "
+                           "complex (array) argument")
+
+
+def _realness_env(fn: Func):
+    """Realness of local names, in statement order."""
+    env = {}
+    for s_ in func_body_stmts(fn.node):
+        if isinstance(s_, ast.Assign) and len(s_.targets) == 1:
+            t = s_.targets[0]
+            if isinstance(t, ast.Name):
+                env[t.id] = _realness(s_.value, fn, env)
+            elif isinstance(t, ast.Tuple) and isinstance(s_.value, ast.Call):
+                facts = TUPLE_FACTS.get(_np_name(s_.value.func, fn))
+                if facts and len(facts) == len(t.elts):
+                    args = [_realness(a, fn, env) for a in s_.value.args]
+                    for el, fact in zip(t.elts, facts):
+                        if isinstance(el, ast.Name):
+                            if fact == "same":
+                                env[el.id] = "complex?" if "complex?" in args else (
+                                    "unknown" if "unknown" in args else "real")
+                            else:
+                                env[el.id] = fact
+    return env
 
 
 def _np_name(e, fn: Func):
@@ -320,8 +446,9 @@ def _np_name(e, fn: Func):
     return ".".join(parts)
 
 
-def _realness(e, fn: Func):
+def _realness(e, fn: Func, env=None):
     """'real' | 'flag' | 'complex?' (may be complex) | 'array?' | 'unknown'"""
+    env = env or {}
     if isinstance(e, ast.Constant):
         if isinstance(e.value, bool):
             return "flag"
@@ -329,36 +456,52 @@ def _realness(e, fn: Func):
             return "real"
         return "unknown"
     if isinstance(e, ast.Name):
+        if e.id in env:
+            return env[e.id]
         if e.id in fn.params:
             return "complex?"
         return "unknown"
     if isinstance(e, ast.Call):
+        if isinstance(e.func, ast.Attribute) and e.func.attr in SAME_METHODS \
+                and _np_name(e.func, fn) not in NUMPY_FACTS:
+            recv = _realness(e.func.value, fn, env)
+            if recv != "unknown":
+                others = [_realness(a, fn, env) for a in e.args
+                          if not isinstance(a, ast.Constant)] if e.func.attr == "dot" else []
+                if "complex?" in others:
+                    return "complex?"
+                return recv
         # method .any() / .all() on a flag array
         if isinstance(e.func, ast.Attribute) and e.func.attr in ("any", "all") and not e.args:
-            inner = _realness(e.func.value, fn)
+            inner = _realness(e.func.value, fn, env)
             if inner in ("flagarray", "flag"):
                 return "flag"
             return "unknown"
         name = _np_name(e.func, fn)
+        if name in ("np.empty", "np.zeros", "np.ones"):
+            dt = [k.value for k in e.keywords if k.arg == "dtype"]
+            if not dt or "complex" not in ast.unparse(dt[0]) and "object" not in ast.unparse(dt[0]):
+                return "real"
+            return "complex?"
         fact = NUMPY_FACTS.get(name)
         if fact is None:
             return "unknown"
         if fact in ("real", "flag", "flagarray"):
             return fact
         if fact == "same":
-            parts = [_realness(a, fn) for a in e.args]
+            parts = [_realness(a, fn, env) for a in e.args]
             if "unknown" in parts:
                 return "unknown"
             if "complex?" in parts:
                 return "complex?"
             return "real"
     if isinstance(e, ast.BinOp):
-        a, b = _realness(e.left, fn), _realness(e.right, fn)
+        a, b = _realness(e.left, fn, env), _realness(e.right, fn, env)
         if "unknown" in (a, b):
             return "unknown"
         if "complex?" in (a, b):
             return "complex?"
         return "real"
     if isinstance(e, ast.UnaryOp):
-        return _realness(e.operand, fn)
+        return _realness(e.operand, fn, env)
     return "unknown"
